@@ -12,23 +12,25 @@ package simrt
 import (
 	"fmt"
 	"hash/fnv"
-	"math/rand"
+	"reflect"
 	"runtime"
 	"runtime/debug"
 	"sort"
+	"strconv"
 	"strings"
 	"sync"
 	"testing"
 	"testing/synctest"
 	"time"
+	"unsafe"
 )
 
 type gstate int32
 
 const (
-	gRunning gstate = iota
-	gParked         // runnable, waits for the scheduler to release it
-	gLockWait       // waits for a sim mutex
+	gRunning  gstate = iota
+	gParked          // runnable, waits for the scheduler to release it
+	gLockWait        // waits for a sim mutex
 	gDone
 )
 
@@ -45,6 +47,7 @@ type G struct {
 	goid     uint64
 	prio     int64
 	daemon   bool
+	sim      *Sim
 }
 
 // Violation is one oracle failure.
@@ -91,21 +94,20 @@ type Sim struct {
 	cfg Config
 
 	mu      sync.Mutex
-	byGoid  map[uint64]*G
 	gs      []*G
 	notify  chan struct{}
 	nextGID int
 
-	rng       *rand.Rand
+	rng       *prng
 	decisions []int32
 	replayPos int
 
 	step     int64
 	start    time.Time
-	events   []string
+	events   chunkList[string]
 	hash     uint64
-	siteHits map[string]int64
-	counters map[string]int64
+	siteHits strCounter
+	counters strCounter
 
 	violations []Violation
 	aborted    bool
@@ -117,16 +119,17 @@ type Sim struct {
 	lastG     *G
 	pctPoints map[int64]bool
 
-	touch     map[any]int64
+	touch     anyTable
 	touchNext int64
 	seqNext   int64
 	evSeq     int64
-	history   []Ev
+	history   chunkList[Ev]
 
-	lockWriters map[any]int // pending writers per RWMutex
-	onStep      []func()
+	lockWriters   anyTable // pending writers per RWMutex
+	onStep        [8]func()
+	nOnStep       int
 	deadlineHints []time.Time
-	quiet       bool
+	quiet         bool
 }
 
 var cur *Sim
@@ -152,10 +155,16 @@ func Active() bool { return current() != nil }
 
 //go:norace
 func (s *Sim) lookup() *G {
-	id := runtime.SimGoid()
-	s.mu.Lock()
-	g := s.byGoid[id]
-	s.mu.Unlock()
+	// the runtime patch keeps one pointer per goroutine (children inherit it from
+	// their parent, hence the goroutine id check)
+	p := runtime.SimGetLocal()
+	if p == nil {
+		return nil
+	}
+	g := (*G)(p)
+	if g.sim != s || g.goid != runtime.SimGoid() {
+		return nil
+	}
 	return g
 }
 
@@ -169,31 +178,50 @@ func Yield(site string) {
 	if s == nil {
 		return
 	}
-	raceDisable()
 	g := s.lookup()
 	if g == nil {
-		s.mu.Lock()
+		s.lk()
 		s.foreign++
-		s.mu.Unlock()
-		raceEnable()
+		s.ulk()
 		return
 	}
 	g.park(s, site, gParked)
-	raceEnable()
 }
 
 //go:norace
 func (g *G) park(s *Sim, site string, st gstate) {
-	s.mu.Lock()
+	s.lk()
 	g.state = st
 	g.site = site
-	s.siteHits[site]++
-	s.mu.Unlock()
+	s.siteHits.add(site, 1)
+	s.ulk()
+	// the scheduler's own hand-offs must not create happens-before edges
+	// between simulated goroutines: hide them from the race detector
+	raceDisable()
 	select {
 	case s.notify <- struct{}{}:
 	default:
 	}
 	<-g.wake
+	raceEnable()
+}
+
+// lk / ulk lock the simulator state. Between lk and ulk the goroutine ignores
+// race-detector synchronisation events, so the simulator creates no
+// happens-before edge between simulated goroutines. Code between lk and ulk
+// must not call library code that relies on such events (sync.Pool users
+// like fmt): strings are built with strconv / concatenation there.
+//
+//go:norace
+func (s *Sim) lk() {
+	raceDisable()
+	s.mu.Lock()
+}
+
+//go:norace
+func (s *Sim) ulk() {
+	s.mu.Unlock()
+	raceEnable()
 }
 
 // BeforeGo reserves the logical id of a goroutine that is about to be
@@ -205,15 +233,17 @@ func BeforeGo(site string) int {
 	if s == nil {
 		return -1
 	}
-	raceDisable()
-	s.mu.Lock()
+	s.lk()
 	id := s.nextGID
 	s.nextGID++
-	g := &G{id: id, name: site, wake: make(chan struct{}), state: gRunning}
+	if len(s.gs) == cap(s.gs) {
+		s.ulk()
+		panic("simrt: too many goroutines in one run")
+	}
+	g := &G{id: id, name: site, wake: make(chan struct{}), state: gRunning, sim: s}
 	g.prio = int64(hash64(uint64(s.cfg.Seed), uint64(id)) >> 1)
 	s.gs = append(s.gs, g)
-	s.mu.Unlock()
-	raceEnable()
+	s.ulk()
 	return id
 }
 
@@ -226,15 +256,13 @@ func Enter(id int) {
 	if s == nil || id < 0 {
 		return
 	}
-	raceDisable()
 	goid := runtime.SimGoid()
-	s.mu.Lock()
+	s.lk()
 	g := s.gs[id]
 	g.goid = goid
-	s.byGoid[goid] = g
-	s.mu.Unlock()
+	s.ulk()
+	runtime.SimSetLocal(unsafe.Pointer(g))
 	g.park(s, "enter:"+g.name, gParked)
-	raceEnable()
 }
 
 // Exit unregisters the calling goroutine. A panic of the goroutine is
@@ -250,19 +278,17 @@ func Exit() {
 		}
 		return
 	}
-	raceDisable()
 	g := s.lookup()
 	if r != nil {
 		st := string(debug.Stack())
 		s.violate("*", "panic", fmt.Sprintf("goroutine %s panicked: %v\n%s", gname(g), r, trimStack(st)))
 	}
 	if g != nil {
-		s.mu.Lock()
+		s.lk()
 		g.state = gDone
-		delete(s.byGoid, g.goid)
-		s.mu.Unlock()
+		s.ulk()
+		runtime.SimSetLocal(nil)
 	}
-	raceEnable()
 }
 
 //go:norace
@@ -302,9 +328,9 @@ func Go(name string, f func()) {
 func GoDaemon(name string, f func()) {
 	id := BeforeGo(name)
 	if s := current(); s != nil && id >= 0 {
-		s.mu.Lock()
+		s.lk()
 		s.gs[id].daemon = true
-		s.mu.Unlock()
+		s.ulk()
 	}
 	go func() {
 		Enter(id)
@@ -325,12 +351,14 @@ func Sleep(d time.Duration) {
 
 //go:norace
 func (s *Sim) violate(prop, clause, detail string) {
-	s.mu.Lock()
-	s.violations = append(s.violations, Violation{
-		Property: prop, Clause: clause, Detail: detail, Step: s.step,
-		SimTime: time.Since(s.start).String(),
-	})
-	s.mu.Unlock()
+	s.lk()
+	if len(s.violations) < cap(s.violations) {
+		s.violations = append(s.violations, Violation{
+			Property: prop, Clause: clause, Detail: detail, Step: s.step,
+			SimTime: time.Since(s.start).String(),
+		})
+	}
+	s.ulk()
 }
 
 // Violate records a violation of property prop.
@@ -341,9 +369,7 @@ func Violate(prop, clause, format string, args ...any) {
 	if s == nil {
 		return
 	}
-	raceDisable()
 	s.violate(prop, clause, fmt.Sprintf(format, args...))
-	raceEnable()
 }
 
 // Event appends a line to the event log (part of the run hash).
@@ -354,22 +380,20 @@ func Event(format string, args ...any) {
 	if s == nil {
 		return
 	}
-	raceDisable()
 	line := fmt.Sprintf(format, args...)
-	s.mu.Lock()
+	s.lk()
 	s.addEvent(line)
-	s.mu.Unlock()
-	raceEnable()
+	s.ulk()
 }
 
 //go:norace
 func (s *Sim) addEvent(line string) {
-	line = fmt.Sprintf("%d %s %s", s.step, time.Since(s.start), line)
+	line = strconv.FormatInt(s.step, 10) + " " + time.Since(s.start).String() + " " + line
 	h := fnv.New64a()
 	h.Write([]byte(line))
 	s.hash = s.hash*1099511628211 ^ h.Sum64()
 	if s.cfg.LogEvents {
-		s.events = append(s.events, line)
+		s.events.add(line)
 	}
 }
 
@@ -381,11 +405,9 @@ func Count(name string, n int64) {
 	if s == nil {
 		return
 	}
-	raceDisable()
-	s.mu.Lock()
-	s.counters[name] += n
-	s.mu.Unlock()
-	raceEnable()
+	s.lk()
+	s.counters.add(name, n)
+	s.ulk()
 }
 
 // Step returns the current scheduler step (global event sequence number).
@@ -408,12 +430,10 @@ func Seq() int64 {
 	if s == nil {
 		return 0
 	}
-	raceDisable()
-	s.mu.Lock()
+	s.lk()
 	s.seqNext++
 	v := s.seqNext
-	s.mu.Unlock()
-	raceEnable()
+	s.ulk()
 	return v
 }
 
@@ -424,9 +444,12 @@ func OnStep(f func()) {
 	if s == nil {
 		return
 	}
-	s.mu.Lock()
-	s.onStep = append(s.onStep, f)
-	s.mu.Unlock()
+	s.lk()
+	if s.nOnStep < len(s.onStep) {
+		s.onStep[s.nOnStep] = f
+		s.nOnStep++
+	}
+	s.ulk()
 }
 
 // MainDone tells the scheduler that the harness main goroutine has finished.
@@ -437,11 +460,9 @@ func MainDone() {
 	if s == nil {
 		return
 	}
-	raceDisable()
-	s.mu.Lock()
+	s.lk()
 	s.mainDone = true
-	s.mu.Unlock()
-	raceEnable()
+	s.ulk()
 }
 
 // Aborted reports whether a violation has been recorded (harness loops may stop early).
@@ -452,11 +473,9 @@ func Aborted() bool {
 	if s == nil {
 		return false
 	}
-	raceDisable()
-	s.mu.Lock()
+	s.lk()
 	v := len(s.violations) > 0
-	s.mu.Unlock()
-	raceEnable()
+	s.ulk()
 	return v
 }
 
@@ -495,7 +514,9 @@ func (s *Sim) decide(n int, gen func() int) int {
 	} else {
 		v = gen()
 	}
-	s.decisions = append(s.decisions, int32(v))
+	if len(s.decisions) < cap(s.decisions) {
+		s.decisions = append(s.decisions, int32(v))
+	}
 	return v
 }
 
@@ -509,12 +530,10 @@ func Choose(tag string, n int) int {
 	if s == nil {
 		return 0
 	}
-	raceDisable()
-	s.mu.Lock()
+	s.lk()
 	v := s.decide(n, func() int { return s.rng.Intn(n) })
-	s.addEvent(fmt.Sprintf("choose %s=%d", tag, v))
-	s.mu.Unlock()
-	raceEnable()
+	s.addEvent("choose " + tag + "=" + strconv.Itoa(v))
+	s.ulk()
 	return v
 }
 
@@ -526,8 +545,7 @@ func Flip(tag string, p float64) bool {
 	if s == nil {
 		return false
 	}
-	raceDisable()
-	s.mu.Lock()
+	s.lk()
 	v := s.decide(2, func() int {
 		if s.rng.Float64() < p {
 			return 1
@@ -537,8 +555,7 @@ func Flip(tag string, p float64) bool {
 	if v == 1 {
 		s.addEvent("flip " + tag)
 	}
-	s.mu.Unlock()
-	raceEnable()
+	s.ulk()
 	return v == 1
 }
 
@@ -548,9 +565,9 @@ func HintDeadline(t time.Time) {
 	if s == nil {
 		return
 	}
-	s.mu.Lock()
+	s.lk()
 	s.deadlineHints = append(s.deadlineHints, t)
-	s.mu.Unlock()
+	s.ulk()
 }
 
 // ---------------------------------------------------------------------------
@@ -565,14 +582,12 @@ func Touch(k any) {
 	if s == nil {
 		return
 	}
-	raceDisable()
-	s.mu.Lock()
-	if _, ok := s.touch[k]; !ok {
+	s.lk()
+	if _, ok := s.touch.get(k); !ok {
 		s.touchNext++
-		s.touch[k] = s.touchNext
+		s.touch.set(k, s.touchNext)
 	}
-	s.mu.Unlock()
-	raceEnable()
+	s.ulk()
 }
 
 // ObjID returns the logical id of k (0 if unknown).
@@ -583,11 +598,9 @@ func ObjID(k any) int64 {
 	if s == nil {
 		return 0
 	}
-	raceDisable()
-	s.mu.Lock()
-	v := s.touch[k]
-	s.mu.Unlock()
-	raceEnable()
+	s.lk()
+	v, _ := s.touch.get(k)
+	s.ulk()
 	return v
 }
 
@@ -608,8 +621,6 @@ func MapKeys[M ~map[K]V, K comparable, V any](m M, site string) []K {
 
 //go:norace
 func orderKeys[K comparable](s *Sim, keys []K, site string) {
-	raceDisable()
-	defer raceEnable()
 	type kv struct {
 		k    K
 		s    string
@@ -617,7 +628,7 @@ func orderKeys[K comparable](s *Sim, keys []K, site string) {
 		kind int
 	}
 	kvs := make([]kv, len(keys))
-	s.mu.Lock()
+	s.lk()
 	unknown := 0
 	for i, k := range keys {
 		e := kv{k: k}
@@ -641,7 +652,7 @@ func orderKeys[K comparable](s *Sim, keys []K, site string) {
 		case [16]byte:
 			e.kind, e.s = 1, string(v[:])
 		default:
-			id, ok := s.touch[any(k)]
+			id, ok := s.touch.get(any(k))
 			if !ok {
 				if st, ok2 := any(k).(fmt.Stringer); ok2 && isValueStringer(any(k)) {
 					e.kind, e.s = 1, st.String()
@@ -650,7 +661,7 @@ func orderKeys[K comparable](s *Sim, keys []K, site string) {
 				unknown++
 				s.touchNext++
 				id = s.touchNext
-				s.touch[any(k)] = id
+				s.touch.set(any(k), id)
 			}
 			e.kind, e.i = 3, id
 		}
@@ -659,8 +670,8 @@ func orderKeys[K comparable](s *Sim, keys []K, site string) {
 	if unknown > 1 {
 		// more than one key without a logical id: their relative order would
 		// depend on Go's map iteration order. Infrastructure error.
-		s.violations = append(s.violations, Violation{Property: "!", Clause: "untouched-map-keys",
-			Detail: fmt.Sprintf("%d keys without logical id at %s", unknown, site), Step: s.step})
+		s.violations = append(s.violations[:len(s.violations):cap(s.violations)-1], Violation{Property: "!", Clause: "untouched-map-keys",
+			Detail: strconv.Itoa(unknown) + " keys without logical id at " + site, Step: s.step})
 	}
 	sort.SliceStable(kvs, func(a, b int) bool {
 		if kvs[a].kind != kvs[b].kind {
@@ -683,7 +694,7 @@ func orderKeys[K comparable](s *Sim, keys []K, site string) {
 		}
 		return s.rng.Intn(nperm)
 	})
-	s.mu.Unlock()
+	s.ulk()
 	if p != 0 {
 		// decode permutation index (Lehmer code) over the first min(n,6) positions
 		idx := p
@@ -714,7 +725,7 @@ func isValueStringer(k any) bool {
 	switch k.(type) {
 	case fmt.Stringer:
 		// only trust value types (e.g. uuid.UUID); pointers print addresses
-		return !strings.HasPrefix(fmt.Sprintf("%T", k), "*")
+		return reflect.TypeOf(k).Kind() != reflect.Pointer
 	}
 	return false
 }
@@ -741,9 +752,7 @@ func Lock(mu tryLocker, site string) {
 		lockReal(mu)
 		return
 	}
-	raceDisable()
 	g := s.lookup()
-	raceEnable()
 	if g == nil {
 		lockReal(mu)
 		return
@@ -753,18 +762,18 @@ func Lock(mu tryLocker, site string) {
 		if mu.TryLock() {
 			return
 		}
-		raceDisable()
-		s.mu.Lock()
+		s.lk()
 		g.waitOn = mu
 		g.waitKind = 1
-		s.lockWriters[mu]++
-		s.mu.Unlock()
+		lw, _ := s.lockWriters.get(mu)
+		s.lockWriters.set(mu, lw+1)
+		s.ulk()
 		g.park(s, site+".wait", gLockWait)
-		s.mu.Lock()
-		s.lockWriters[mu]--
+		s.lk()
+		lw, _ = s.lockWriters.get(mu)
+		s.lockWriters.set(mu, lw-1)
 		g.waitOn = nil
-		s.mu.Unlock()
-		raceEnable()
+		s.ulk()
 	}
 }
 
@@ -795,15 +804,13 @@ func wakeWaiters(mu any) {
 	if s == nil {
 		return
 	}
-	raceDisable()
-	s.mu.Lock()
+	s.lk()
 	for _, g := range s.gs {
 		if g.state == gLockWait && g.waitOn == mu {
 			g.state = gParked
 		}
 	}
-	s.mu.Unlock()
-	raceEnable()
+	s.ulk()
 }
 
 // RLock acquires mu for reading; as with the real RWMutex a pending writer
@@ -816,33 +823,27 @@ func RLock(mu *sync.RWMutex, site string) {
 		mu.RLock()
 		return
 	}
-	raceDisable()
 	g := s.lookup()
-	raceEnable()
 	if g == nil {
 		mu.RLock()
 		return
 	}
 	Yield(site)
 	for {
-		raceDisable()
-		s.mu.Lock()
-		pending := s.lockWriters[tryLocker(mu)]
-		s.mu.Unlock()
-		raceEnable()
+		s.lk()
+		pending, _ := s.lockWriters.get(tryLocker(mu))
+		s.ulk()
 		if pending == 0 && mu.TryRLock() {
 			return
 		}
-		raceDisable()
-		s.mu.Lock()
+		s.lk()
 		g.waitOn = tryLocker(mu)
 		g.waitKind = 2
-		s.mu.Unlock()
+		s.ulk()
 		g.park(s, site+".wait", gLockWait)
-		s.mu.Lock()
+		s.lk()
 		g.waitOn = nil
-		s.mu.Unlock()
-		raceEnable()
+		s.ulk()
 	}
 }
 
@@ -874,53 +875,65 @@ func Run(t *testing.T, cfg Config, main func()) (res Result) {
 	if cfg.Horizon == 0 {
 		cfg.Horizon = 24 * time.Hour
 	}
-	defer func() {
-		if r := recover(); r != nil {
-			msg := fmt.Sprint(r)
-			if strings.Contains(msg, "deadlock: main bubble goroutine has exited") {
-				if len(res.Violations) > 0 || res.StepCap {
-					// the run was aborted on purpose: goroutines are expected to be left behind
-					return
-				}
-				buf := make([]byte, 1<<20)
-				buf = buf[:runtime.Stack(buf, true)]
-				var left []string
-				for _, g := range strings.Split(string(buf), "\n\n") {
-					if strings.Contains(g, "synctest bubble") && !strings.Contains(g, "simrt.Run") {
-						if len(g) > 1500 {
-							g = g[:1500]
-						}
-						left = append(left, g)
-					}
-				}
-				if len(left) > 6 {
-					left = left[:6]
-				}
-				res.Violations = append(res.Violations, Violation{Property: "C40", Clause: "goroutine-leak",
-					Detail: "goroutines left blocked in the bubble after shutdown: " + msg + "\n" + strings.Join(left, "\n\n")})
+	// The bubble is started from a helper goroutine: when the race detector has
+	// reported something, the testing package aborts the goroutine that called
+	// synctest.Test (runtime.Goexit); the result must survive that.
+	done := make(chan struct{})
+	var fatal any
+	go func() {
+		defer close(done)
+		defer func() {
+			r := recover()
+			if r == nil {
 				return
 			}
-			panic(r)
-		}
+			msg := fmt.Sprint(r)
+			if !strings.Contains(msg, "deadlock: main bubble goroutine has exited") {
+				fatal = r
+				return
+			}
+			if len(res.Violations) > 0 || res.StepCap {
+				// the run was aborted on purpose: goroutines are expected to be left behind
+				return
+			}
+			buf := make([]byte, 1<<20)
+			buf = buf[:runtime.Stack(buf, true)]
+			var left []string
+			for _, g := range strings.Split(string(buf), "\n\n") {
+				if strings.Contains(g, "synctest bubble") && !strings.Contains(g, "simrt.Run") {
+					if len(g) > 1500 {
+						g = g[:1500]
+					}
+					left = append(left, g)
+				}
+			}
+			if len(left) > 6 {
+				left = left[:6]
+			}
+			res.Violations = append(res.Violations, Violation{Property: "C40", Clause: "goroutine-leak",
+				Detail: "goroutines left blocked in the bubble after shutdown: " + msg + "\n" + strings.Join(left, "\n\n")})
+		}()
+		synctest.Test(t, func(t *testing.T) {
+			res = runInBubble(cfg, main)
+		})
 	}()
-	synctest.Test(t, func(t *testing.T) {
-		res = runInBubble(cfg, main)
-	})
+	<-done
+	if fatal != nil {
+		panic(fatal)
+	}
 	return res
 }
 
 func runInBubble(cfg Config, main func()) Result {
 	s := &Sim{
-		cfg:         cfg,
-		byGoid:      map[uint64]*G{},
-		notify:      make(chan struct{}, 1),
-		rng:         rand.New(rand.NewSource(cfg.Seed)),
-		start:       time.Now(),
-		siteHits:    map[string]int64{},
-		counters:    map[string]int64{},
-		touch:       map[any]int64{},
-		lockWriters: map[any]int{},
-		hash:        14695981039346656037,
+		cfg:        cfg,
+		gs:         make([]*G, 0, 4096),
+		decisions:  make([]int32, 0, int(cfg.MaxSteps)*3+4096),
+		violations: make([]Violation, 0, 64),
+		notify:     make(chan struct{}, 1),
+		rng:        &prng{s: uint64(cfg.Seed)*2685821657736338717 + 1442695040888963407},
+		start:      time.Now(),
+		hash:       14695981039346656037,
 	}
 	if cfg.Strategy == "pct" {
 		s.pctPoints = map[int64]bool{}
@@ -931,6 +944,8 @@ func runInBubble(cfg Config, main func()) Result {
 	}
 	cur = s
 	defer func() { cur = nil; runtime.SimSetSelectSeed(0) }()
+	// warm up lazily initialised library state from the root goroutine
+	time.NewTimer(time.Hour).Stop()
 
 	Go("main", func() {
 		defer MainDone()
@@ -945,13 +960,13 @@ func runInBubble(cfg Config, main func()) Result {
 		Hash:       fmt.Sprintf("%016x", s.hash),
 		Steps:      s.step,
 		SimTime:    time.Since(s.start),
-		Events:     s.events,
-		SiteHits:   s.siteHits,
-		Counters:   s.counters,
+		Events:     s.events.slice(),
+		SiteHits:   s.siteHits.toMap(),
+		Counters:   s.counters.toMap(),
 		StepCap:    s.stepCap,
 		Foreign:    s.foreign,
 		Stuck:      s.stuck,
-		History:    s.history,
+		History:    s.history.slice(),
 		Goroutines: len(s.gs),
 	}
 	return res
@@ -959,7 +974,7 @@ func runInBubble(cfg Config, main func()) Result {
 
 //go:norace
 func (s *Sim) snapshot() (parked []*G, live int, lockWait int) {
-	s.mu.Lock()
+	s.lk()
 	for _, g := range s.gs {
 		switch g.state {
 		case gParked:
@@ -971,7 +986,7 @@ func (s *Sim) snapshot() (parked []*G, live int, lockWait int) {
 			live++
 		}
 	}
-	s.mu.Unlock()
+	s.ulk()
 	// fair order: least recently run first, then id
 	sort.SliceStable(parked, func(a, b int) bool {
 		if parked[a].lastRun != parked[b].lastRun {
@@ -989,23 +1004,23 @@ var stallDeltas = []time.Duration{
 
 //go:norace
 func (s *Sim) loop() {
-	raceDisable()
-	defer raceEnable()
 	for {
+		raceDisable()
 		synctest.Wait()
-		s.mu.Lock()
-		hooks := s.onStep
+		raceEnable()
+		s.lk()
+		hooks := s.onStep[:s.nOnStep]
 		nviol := len(s.violations)
-		s.mu.Unlock()
+		s.ulk()
 		if nviol == 0 {
 			for _, f := range hooks {
 				f()
 			}
 		}
-		s.mu.Lock()
+		s.lk()
 		nviol = len(s.violations)
 		mainDone := s.mainDone
-		s.mu.Unlock()
+		s.ulk()
 		if nviol > 0 {
 			s.aborted = true
 			return
@@ -1042,42 +1057,56 @@ func (s *Sim) loop() {
 		if v == n {
 			// stall everybody while the clock runs
 			d := s.decide(len(stallDeltas), func() int { return s.rng.Intn(len(stallDeltas)) })
-			s.mu.Lock()
-			s.addEvent(fmt.Sprintf("stall %s", stallDeltas[d]))
-			s.counters["sched.stall"]++
-			s.mu.Unlock()
+			s.lk()
+			s.addEvent("stall " + stallDeltas[d].String())
+			s.counters.add("sched.stall", 1)
+			s.ulk()
 			s.idle(stallDeltas[d])
 			continue
 		}
 		g := parked[v]
-		s.mu.Lock()
-		s.addEvent(fmt.Sprintf("run g%d %s", g.id, g.site))
+		s.lk()
+		s.addEvent("run g" + strconv.Itoa(g.id) + " " + g.site)
 		g.state = gRunning
 		g.lastRun = s.step
-		s.mu.Unlock()
+		s.ulk()
 		if s.lastG != nil && s.lastG != g {
-			s.counters["sched.switch"]++
+			s.lk()
+			s.counters.add("sched.switch", 1)
+			s.ulk()
 		}
 		s.lastG = g
 		runtime.SimSetSelectSeed(hash64(s.cfg.SelSeed|1, uint64(s.step)) | 1)
+		raceDisable()
 		g.wake <- struct{}{}
+		raceEnable()
 	}
 }
 
 //go:norace
 func (s *Sim) idle(d time.Duration) {
+	// only the channel operations are hidden from the race detector: library
+	// code (timers use sync.Once internally) must see its own synchronisation
+	raceDisable()
 	select {
 	case <-s.notify:
 	default:
 	}
+	raceEnable()
 	if d <= 0 {
 		d = time.Nanosecond
 	}
 	t := time.NewTimer(d)
+	fired := false
+	raceDisable()
 	select {
 	case <-s.notify:
-		t.Stop()
 	case <-t.C:
+		fired = true
+	}
+	raceEnable()
+	if !fired {
+		t.Stop()
 	}
 }
 
@@ -1117,7 +1146,7 @@ func (s *Sim) pick(parked []*G, allowStall bool) int {
 
 //go:norace
 func (s *Sim) reportStuck(mainDone bool, lockWait int) {
-	s.mu.Lock()
+	s.lk()
 	var lines []string
 	for _, g := range s.gs {
 		if g.state == gDone || g.daemon {
@@ -1127,10 +1156,10 @@ func (s *Sim) reportStuck(mainDone bool, lockWait int) {
 		if g.state == gLockWait {
 			st = "lock-wait"
 		}
-		lines = append(lines, fmt.Sprintf("g%d(%s) %s %s", g.id, g.name, st, g.site))
+		lines = append(lines, "g"+strconv.Itoa(g.id)+"("+g.name+") "+st+" "+g.site)
 	}
 	s.stuck = lines
-	s.mu.Unlock()
+	s.ulk()
 	clause := "stuck"
 	if mainDone {
 		clause = "goroutine-leak"
@@ -1138,3 +1167,30 @@ func (s *Sim) reportStuck(mainDone bool, lockWait int) {
 	s.violate("C40", clause, fmt.Sprintf("no goroutine runnable and no timer pending before the horizon; mainDone=%v lockWait=%d:\n%s",
 		mainDone, lockWait, strings.Join(lines, "\n")))
 }
+
+// prng is a small splitmix64 generator. math/rand is not used because its
+// state would be touched by instrumented library code from several goroutines.
+type prng struct{ s uint64 }
+
+//go:norace
+func (r *prng) next() uint64 {
+	r.s += 0x9E3779B97F4A7C15
+	x := r.s
+	x ^= x >> 30
+	x *= 0xBF58476D1CE4E5B9
+	x ^= x >> 27
+	x *= 0x94D049BB133111EB
+	x ^= x >> 31
+	return x
+}
+
+//go:norace
+func (r *prng) Intn(n int) int {
+	if n <= 1 {
+		return 0
+	}
+	return int(r.next() % uint64(n))
+}
+
+//go:norace
+func (r *prng) Float64() float64 { return float64(r.next()>>11) / (1 << 53) }
